@@ -28,7 +28,8 @@ CONSTANTS Vals, Dels, Assets,          \* sets of names (subsets of ValOrd / Del
           MaxDepth,                    \* bound on the number of events
           MaxBlocks,                   \* bound on the number of blocks
           GovEventsC,                  \* set of governance events (records shaped like E(..)) enabled when "Gov" \in Actions
-          NativeAmounts                \* amounts of native (de)delegations when "Native" \in Actions
+          NativeAmounts,               \* amounts of native (de)delegations when "Native" \in Actions
+          Prefix                       \* sequence of events (records shaped like E(..)) applied before the exploration starts
 
 VARIABLES st, gh, viol, known, hist, depth, inBlock
 
@@ -178,32 +179,48 @@ ModelProbes(s) ==
 SetToSeq1(S) == IF S = {} THEN <<>> ELSE SetToSeq(S)
 
 -----------------------------------------------------------------------------
+\* one event applied to (state, ghost): the successor, its ghost and the verdicts of every property operator on the step
+StepOf(s, g, e0, i) ==
+  LET e == Concrete(s, e0)
+      r == Apply(s, e)
+      post == WithBals(r.s)
+      rec == [i |-> i, ev |-> e.ev, args |-> e,
+              res |-> [ok |-> r.ok, err |-> r.err, errc |-> ErrClass(r.err), panic |-> FALSE, feff |-> "", burned |-> "", hookErr |-> r.err,
+                      same |-> TRUE, detn |-> 0, det |-> TRUE, detDiff |-> ""],
+              probes |-> IF e.ev = "BeginBlock" THEN <<>> ELSE SetToSeq1(ModelProbes(post)), mirror |-> <<>>]
+      g2 == GhostNext(g, s, rec, post, TRUE)
+  IN  [e |-> e, st |-> post, gh |-> g2, j |-> Judge(s, rec, post, g, g2)]
+
+\* a fixed prefix of events (a family may start from a populated state instead of spending its depth bound on getting there);
+\* the prefix is part of the history, so generated schedules replay it on the real keeper
+RECURSIVE RunPrefix(_, _)
+RunPrefix(acc, es) ==
+  IF es = <<>> THEN acc
+  ELSE LET x == StepOf(acc.st, acc.gh, Head(es), Len(acc.hist) + 1)
+       IN  RunPrefix([st |-> x.st, gh |-> x.gh, hist |-> Append(acc.hist, x.e), viol |-> acc.viol \cup {v \in x.j : v.kf = ""}], Tail(es))
+Start == RunPrefix([st |-> WithBals(Init0), gh |-> GhostInit, hist |-> <<>>, viol |-> {}], Prefix)
+
 Init ==
-  /\ st = WithBals(Init0)
-  /\ gh = GhostInit
-  /\ viol = {}
+  /\ st = Start.st
+  /\ gh = Start.gh
+  /\ viol = Start.viol
   /\ known = {}
-  /\ hist = <<>>
+  /\ hist = Start.hist
   /\ depth = 0
-  /\ inBlock = FALSE
+  /\ inBlock = (Prefix # <<>> /\ Prefix[Len(Prefix)].ev # "EndBlock")
 
 Next ==
   /\ depth < MaxDepth
   /\ \E e0 \in Events(st) :
-       LET e == Concrete(st, e0)
-           r == Apply(st, e)
-           post == WithBals(r.s)
-           rec == [i |-> depth + 1, ev |-> e.ev, args |-> e,
-                   res |-> [ok |-> r.ok, err |-> r.err, errc |-> ErrClass(r.err), panic |-> FALSE, feff |-> "", burned |-> "", hookErr |-> r.err,
-                           same |-> TRUE, detn |-> 0, det |-> TRUE, detDiff |-> ""],
-                   probes |-> IF e.ev = "BeginBlock" THEN <<>> ELSE SetToSeq1(ModelProbes(post)), mirror |-> <<>>]
-           gh2 == GhostNext(gh, st, rec, post, TRUE)
-           j == Judge(st, rec, post, gh, gh2)
-       IN  /\ (e.ev = "BeginBlock" => post.height <= MaxBlocks + 1)
+       LET x == StepOf(st, gh, e0, Len(hist) + 1)
+           e == x.e
+           post == x.st
+           j == x.j
+       IN  /\ (e.ev = "BeginBlock" => post.height <= MaxBlocks + 1 + Cardinality({i \in DOMAIN Prefix : Prefix[i].ev = "BeginBlock"}))
            /\ st' = post
-           /\ gh' = gh2
-           /\ viol' = {x \in j : x.kf = ""}
-           /\ known' = {x.kf : x \in {x \in j : x.kf # ""}}
+           /\ gh' = x.gh
+           /\ viol' = {v \in j : v.kf = ""}
+           /\ known' = {v.kf : v \in {v \in j : v.kf # ""}}
            /\ hist' = Append(hist, e)
            /\ depth' = depth + 1
            /\ inBlock' = (IF e.ev = "BeginBlock" THEN TRUE ELSE IF e.ev = "EndBlock" THEN FALSE ELSE inBlock)
